@@ -42,6 +42,13 @@ def _unify(p, n, env):
     return True
 
 
+def reference_regions(src, pattern, start=0, end=None):
+    """[(start, end)] the finder must report: expression or statement pattern, as rope classifies it"""
+    if is_statement_pattern(pattern):
+        return statement_matches(src, pattern, start, end)
+    return [(x, y) for x, y, _env in matches(src, pattern, start, end)]
+
+
 def matches(src, pattern, start=0, end=None):
     """[(start, end, {wildcard: source text})] of every expression node matching the pattern whose
     extent lies inside [start, end)"""
@@ -62,3 +69,75 @@ def matches(src, pattern, start=0, end=None):
                 if start <= a and b <= end:
                     out.append((a, b, {w: ast.get_source_segment(src, v[1]) for w, v in env.items()}))
     return sorted(out)
+
+
+def is_statement_pattern(pattern):
+    """rope treats a pattern as an expression pattern when it parses to ONE expression statement"""
+    src = re.sub(r"\$\{(\w+)\}", lambda m: "__w_%s__" % m.group(1), pattern)
+    body = ast.parse(src).body
+    return not (len(body) == 1 and isinstance(body[0], ast.Expr))
+
+
+def _stmt_lists(tree):
+    for n in ast.walk(tree):
+        for f in ("body", "orelse", "finalbody"):
+            v = getattr(n, f, None)
+            if isinstance(v, list) and v and isinstance(v[0], ast.stmt):
+                yield v
+
+
+def _unify_any(p, n, env):
+    """_unify for statements: a wildcard may also stand where a name is stored"""
+    if isinstance(p, ast.Name) and p.id.startswith("__w_") and p.id.endswith("__"):
+        w = p.id[4:-2]
+        if not isinstance(n, ast.expr):
+            return False
+        d = ast.dump(n) if not isinstance(n, ast.Name) else "Name:" + n.id  # the same name read or written
+        if w in env:
+            return env[w][0] == d
+        env[w] = (d, n)
+        return True
+    if type(p) is not type(n):
+        return False
+    for (f1, v1), (f2, v2) in zip(ast.iter_fields(p), ast.iter_fields(n)):
+        if f1 in ("ctx", "type_comment"):
+            continue
+        if isinstance(v1, ast.AST):
+            if not isinstance(v2, ast.AST) or not _unify_any(v1, v2, env):
+                return False
+        elif isinstance(v1, list):
+            if not isinstance(v2, list) or len(v1) != len(v2):
+                return False
+            for a, b in zip(v1, v2):
+                if isinstance(a, ast.AST):
+                    if not _unify_any(a, b, env):
+                        return False
+                elif a != b:
+                    return False
+        elif v1 != v2:
+            return False
+    return True
+
+
+def statement_matches(src, pattern, start=0, end=None):
+    """[(start, end)] of every run of consecutive statements (in any statement list: bodies, else
+    and finally blocks, handlers) that matches the statement pattern, inside [start, end)"""
+    end = len(src) if end is None else end
+    psrc = re.sub(r"\$\{(\w+)\}", lambda m: "__w_%s__" % m.group(1), pattern)
+    pats = ast.parse(psrc).body
+    tree = ast.parse(src)
+    starts = [0]
+    for i, ch in enumerate(src):
+        if ch == "\n":
+            starts.append(i + 1)
+    out = []
+    for stmts in _stmt_lists(tree):
+        for i in range(0, len(stmts) - len(pats) + 1):
+            env = {}
+            if all(_unify_any(p, n, env) for p, n in zip(pats, stmts[i:i + len(pats)])):
+                a = starts[stmts[i].lineno - 1] + stmts[i].col_offset
+                last = stmts[i + len(pats) - 1]
+                b = starts[last.end_lineno - 1] + last.end_col_offset
+                if start <= a and b <= end:
+                    out.append((a, b))
+    return sorted(set(out))
